@@ -42,6 +42,11 @@ var after = &T{} // SITE-PKGVAR-AFTER
 
 var zero T // SITE-PKGVAR-ZERO
 
+var (
+	pg0 = 1
+	pg1 T // SITE-PKG-VARGROUP
+)
+
 func MakT() T {
 	return T{} // SITE-MAK-LIT
 }
@@ -54,6 +59,12 @@ func Other() {
 	e := new(T) // SITE-NEW
 	var f T // SITE-VAR
 	var g, h T // SITE-VAR2
+	var (
+		vg0 int
+		vg1 T // SITE-VARGROUP
+		vg2 *T
+	)
+	_, _, _ = vg0, vg1, vg2
 	var p *T // SITE-PTRVAR
 	var _ T // SITE-BLANK
 	var i T = *e // SITE-VARINIT
@@ -102,6 +113,9 @@ func ZZC02Basic() {
 		{file, nd.LineOf(src, "SITE-NEW"), "CTOR02", ann},
 		{file, nd.LineOf(src, "SITE-VAR"), "CTOR03", ann},
 		{file, nd.LineOf(src, "SITE-VAR2"), "CTOR03", ann},
+		// inside a var ( ... ) group the diagnostic sits on the variable's own line
+		{file, nd.LineOf(src, "SITE-VARGROUP"), "CTOR03", ann},
+		{file, nd.LineOf(src, "SITE-PKG-VARGROUP"), "CTOR03", ann},
 		{file, nd.LineOf(src, "SITE-CLOSURE"), "CTOR01", ann},
 	}
 	CheckExact(res.Diags, exp, "C02 instantiation forms")
